@@ -1,3 +1,3 @@
-From Coq Require Import Extraction ExtrOcamlBasic.
+From Coq Require Import Extraction ExtrOcamlBasic ZArith NArith.
 From MW Require Import PyBase Sections.
-Extraction "sections_model.ml" get_sections spec_sections.
+Extraction "sections_model.ml" Z.succ N.succ Nat.succ get_sections spec_sections.
